@@ -34,6 +34,10 @@ pub mod secp256k1 {
     }
     impl Message {
         #[verifier::external_body]
+        pub fn from_digest(digest: [u8; 32]) -> (r: Message)
+            ensures r.digest@ == digest@
+        { unimplemented!() }
+        #[verifier::external_body]
         pub fn from_digest_slice(digest: &[u8]) -> (r: Result<Message, Error>)
             ensures r is Ok <==> digest@.len() == 32, r is Ok ==> r->Ok_0.digest@ == digest@
         { unimplemented!() }
@@ -81,6 +85,10 @@ pub mod secp256k1 {
                 pub fn hash(data: &[u8]) -> (r: Hash)
                     ensures r.bytes@ == sha256(data@)
                 { unimplemented!() }
+                #[verifier::external_body]
+                pub fn to_byte_array(self) -> (r: [u8; 32]) ensures r@ == self.bytes@ { unimplemented!() }
+                #[verifier::external_body]
+                pub fn as_byte_array(&self) -> (r: &[u8; 32]) ensures r@ == self.bytes@ { unimplemented!() }
             }
         }
     }
